@@ -66,9 +66,9 @@ class ShortLinkControl(BitsInterface):
         ), f"Expected at least 36 bits (including 8-bit CRC), got {len(bits)}"
         slco: SLCOs = SLCOs.from_bits(bits[:4])
         if slco == SLCOs.NullMessage:
-            return ShortLinkControl(slco=slco, crc_8bit=bits[28:36])
+            slc = ShortLinkControl(slco=slco, crc_8bit=bits[28:36])
         elif slco == SLCOs.ActivityUpdate:
-            return ShortLinkControl(
+            slc = ShortLinkControl(
                 slco=slco,
                 crc_8bit=bits[28:36],
                 ts1_activity_id=ActivityID.from_bits(bits[4:8]),
@@ -76,8 +76,17 @@ class ShortLinkControl(BitsInterface):
                 ts1_address=bits[12:20],
                 ts2_address=bits[20:28],
             )
+        else:
+            raise KeyError(f"from_bits not implemented for {slco}")
 
-        raise KeyError(f"from_bits not implemented for {slco}")
+        if ba2int(bits[28:36]):
+            # the verdict on a received short LC is about the bits that were received, not about the
+            # re-serialised fields (a reserved activity id is kept as ActivityID.Reserved, the unused
+            # bits of a null message as zeros)
+            slc.crc_ok = CRC8.check(
+                bitarray(bits[:28], endian="big"), ba2int(bits[28:36][::-1])
+            )
+        return slc
 
     def as_bits(self) -> bitarray:
         if self.slco == SLCOs.NullMessage:
